@@ -473,7 +473,7 @@ PROPS["C07"] = {
     "crate": "gen",
     "groups": [
         {"id": "context",
-         "quick": ["c07::c07_owned_tree", "c07::c07_arc_context_tree", "c07::c07_opaque_overaligned_arc_context_tree", "c07::c07_borrowed_child_moved_out_and_dropped", "c07::c07_consuming_call_keeps_context", "c07::c07_clone_cast_selfreturn",
+         "quick": ["c07::c07_owned_tree", "c07::c07_arc_context_tree", "c07::c07_opaque_overaligned_arc_context_tree", "c07::c07_group_consuming_call", "c07::c07_borrowed_child_moved_out_and_dropped", "c07::c07_consuming_call_keeps_context", "c07::c07_clone_cast_selfreturn",
                    "c07::c07_caller_glue_holds_context_across_consuming_call", "c07::c07_consuming_call_returning_wrapped_result",
                    "c07::c07_failed_cast_and_int_result_child", "c07::c07_instance_destroyed_before_context_released",
                    "c07::c07_kf_borrowed_obj_ref", "c07::c07_kf_borrowed_obj_mut", "c07::c07_kf_borrowed_group_ref",
